@@ -34,7 +34,8 @@ REQUIRED_BUCKETS = ["align:none", "align:epoch", "align:past-nonmultiple", "alig
                     "series-added-during-slow-tick", "catch-up-observed", "multi-series", "actor-tier",
                     "actor-tier:timer-late>=1period", "series-ended:SourceStoppedError",
                     "series-ended:remove_timeseries", "moving-window-tier", "moving-window-tier:align:none",
-                    "moving-window-tier:align:offset"]
+                    "moving-window-tier:align:offset", "moving-window-tier:stopped-and-started-again",
+                    "moving-window-tier:restart-then-late-timer"]
 REQUIRED_COUNTERS = ["ticks_observed", "runs"]
 ASSUMPTIONS = ["virtual time", "a series whose source closes or that the user removes is only required to have received a "
                "gap-free stretch of the shared timeline; the other series are held to the full property"]
@@ -301,7 +302,11 @@ def gen_mw(rng: Any) -> dict[str, Any]:
             "x_off": {"none": None, "epoch": 0.0, "offset": round(rng.choice([0.25, 0.3, 0.123456]) * period, 6)}[x_kind],
             "y_off": round(rng.choice([0.0, 0.5, 0.4]) * period, 6),
             "start_offset": round(rng.choice([0.0, 0.3, 0.999999, 0.5]) * period + rng.randint(1, 30) * period, 6),
-            "ticks": rng.randint(10, 20)}
+            "ticks": rng.randint(10, 20),
+            # the window is stopped and started again mid-run (off the tick grid), and later the loop is held for a
+            # while (timer fires late): its resampling must carry on as one gap-free timeline
+            "restart_at": rng.choice([None, None, round(rng.uniform(3, 6), 3)]),
+            "busy": rng.choice([None, [round(rng.uniform(7, 9), 3), rng.choice([0.4, 1.0, 2.3])]])}
 
 
 async def _drive_mw(case: dict[str, Any], out: dict[str, Any]) -> None:
@@ -322,25 +327,45 @@ async def _drive_mw(case: dict[str, Any], out: dict[str, Any]) -> None:
     mw = MovingWindow(size=per * 8, resampled_data_recv=ch.new_receiver(limit=1000), input_sampling_period=per / 3,
                       resampler_config=ResamplerConfig(resampling_period=per, **kw),
                       align_to=EPOCH + timedelta(seconds=case["y_off"]))
-    rec_ts: list[Any] = []
-    orig = mw._buffer.update  # noqa: SLF001
+    # observation point: every sink the window hands to its resampler's add_timeseries (one per start of the window)
+    per_sink: list[list[Any]] = []
+    rs = mw._resampler  # noqa: SLF001
+    orig_add = rs.add_timeseries
 
-    def update(sample: Any) -> None:
-        rec_ts.append(sample.timestamp)
-        orig(sample)
+    def add_timeseries(name: str, source: Any, sink: Any) -> bool:
+        mine: list[Any] = []
+        per_sink.append(mine)
 
-    mw._buffer.update = update  # type: ignore[method-assign]  # noqa: SLF001
+        async def recording_sink(sample: Any) -> None:
+            mine.append(sample.timestamp)
+            await sink(sample)
+
+        return orig_add(name, source, recording_sink)
+
+    rs.add_timeseries = add_timeseries  # type: ignore[method-assign]
     mw.start()
     tx = ch.new_sender()
     loop = asyncio.get_event_loop()
     t0 = loop.time()
     k = 0
+    restarted = busy_done = False
     while loop.time() - t0 < case["ticks"] * p:
         await tx.send(Sample(datetime.now(timezone.utc), Quantity(float(k))))
         k += 1
         await asyncio.sleep(p * 0.37)
-    await asyncio.sleep(0.123 * p)
-    out["ts"] = rec_ts
+        el = (loop.time() - t0) / p
+        if case.get("restart_at") and not restarted and el >= case["restart_at"]:
+            restarted = True
+            await asyncio.sleep(0.0123 * p)  # (off the tick grid: see the Timer remark in the actor tier)
+            await mw.stop()
+            out["restarted_at"] = datetime.now(timezone.utc)
+            mw.start()
+        if case.get("busy") and not busy_done and el >= case["busy"][0]:
+            busy_done = True
+            loop._selector.clock.advance(case["busy"][1] * p)  # noqa: SLF001  (the loop was blocked that long)
+    await asyncio.sleep(3.123 * p)
+    out["per_sink"] = per_sink
+    out["ts"] = sorted({t for lst in per_sink for t in lst})
     await mw.stop()
 
 
@@ -351,10 +376,25 @@ def check_mw(case: dict[str, Any], rec: Any) -> None:
     run_virtual(lambda: _drive_mw(case, out), start_offset=case["start_offset"])
     rec.bucket("moving-window-tier")
     rec.bucket("moving-window-tier:align:" + case["x_kind"])
+    if case.get("restart_at"):
+        rec.bucket("moving-window-tier:stopped-and-started-again")
+        if case.get("busy") and case["busy"][1] >= 1.0:
+            rec.bucket("moving-window-tier:restart-then-late-timer")
     rec.count("runs")
     p = case["period"]
     per = timedelta(seconds=p)
     ts = out["ts"]
+    for n_sink, lst in enumerate(out.get("per_sink", [])):
+        if lst != sorted(set(lst)):
+            rec.violation("series-timestamps-repeated-or-reordered",
+                          {"tier": "moving-window", "sink_of_start_number": n_sink + 1, "period": p,
+                           "timestamps": [str(t) for t in lst[:30]], "restart_at": case.get("restart_at"), "busy": case.get("busy")})
+            return
+        if lst and lst != [t for t in ts if lst[0] <= t <= lst[-1]]:
+            rec.violation("series-timestamps-not-shared-or-gapped",
+                          {"tier": "moving-window", "sink_of_start_number": n_sink + 1, "period": p,
+                           "timestamps": [str(t) for t in lst[:30]]})
+            return
     w0 = {"tier": "moving-window", "period": p, "resampler_align_to_offset": case["x_off"],
           "window_align_to_offset": case["y_off"], "created": str(out["created"]), "timestamps": [str(t) for t in ts[:12]]}
     if len(ts) < 5:
